@@ -287,7 +287,8 @@ theorem zip_aux_spec (fs : Disk) (ld : Name → Option Blob) (a : Archive) (m f 
     simp [h, hb']
   · simp [h]
 
-/-- on disk the file is found exactly when the resolved path is a regular file -/
+/-- on disk the file is found exactly when the resolved path (relative to the document's directory)
+    is a regular file -/
 theorem disk_aux_spec (fs : Disk) (ld : Name → Option Blob) (p f : Name) (b : Blob) :
     getFileData fs ld (.disk p) f = .ok b ↔ fs.file (auxPath p f) = some b := by
   simp only [getFileData]
@@ -330,10 +331,11 @@ def ar : Archive := ⟨[(nm "__MACOSX/._m.dae", 9), (nm "a/m.dae", 1), (nm "a/t.
 
 example : (openSource ⟨.fileobj, .zip ar⟩ none false).map (·.data) = .ok 1 := by rfl
 example : (openSource ⟨.path (nm "/x/p.zip"), .zip ar⟩ none true).map (·.data) = .ok 1 := by rfl
-example : getFileData [] (fun _ => none) (.zip ar (nm "a/m.dae")) (nm "./t.png") = .ok 2 := by rfl
-example : getFileData [] (fun _ => none) (.zip ar (nm "a/m.dae")) (nm "../t.png") = .ok 3 := by rfl
-example : getFileData [] (fun _ => none) (.zip ar (nm "a/m.dae")) (nm "sub/t.png") = .error .brokenRef := by rfl
-example : getFileData [(nm "/r/a/t.png", 7)] (fun _ => none) (.disk (nm "/r/a/m.dae")) (nm "./t.png") = .ok 7 := by rfl
+example : getFileData ⟨[], []⟩ (fun _ => none) (.zip ar (nm "a/m.dae")) (nm "./t.png") = .ok 2 := by rfl
+example : getFileData ⟨[], []⟩ (fun _ => none) (.zip ar (nm "a/m.dae")) (nm "../t.png") = .ok 3 := by rfl
+example : getFileData ⟨[], []⟩ (fun _ => none) (.zip ar (nm "a/m.dae")) (nm "sub/t.png") = .error .brokenRef := by rfl
+example : getFileData ⟨nm "/", [(nm "/r/a/t.png", 7)]⟩ (fun _ => none) (.disk (nm "/r/a/m.dae")) (nm "./t.png") = .ok 7 := by rfl
+example : getFileData ⟨nm "/r/a", [(nm "/r/t.png", 7)]⟩ (fun _ => none) (.disk (nm "m.dae")) (nm "../t.png") = .ok 7 := by rfl
 example : imageData [.daeError] (.error .brokenRef) = (.empty, [.brokenRef]) := by decide
 example : imageData [.incomplete] (.error .brokenRef) = (.raised .brokenRef, [.brokenRef]) := by decide
 
